@@ -175,6 +175,10 @@ def history_jobs(rng, tier):
         for calls in H.exhaustive_single(2 if tier == "quick" else 3):
             h = H.mk_history("x", calls, {"e1": kind})
             jobs.append({"id": "h%d" % len(jobs), "kind": "history", "history": h, "_desc": {"calls": calls, "kind": kind}})
+    for kind in H.KINDS:                   # one object switching between the grid and the graph implementation
+        for calls in H.exhaustive_switching(4):
+            h = H.mk_history("x", calls, {"e1": kind}, cfgs=H.cfgs_mixed(kind))
+            jobs.append({"id": "w%d" % len(jobs), "kind": "history", "history": h, "_desc": {"calls": calls, "kind": kind, "spaces": "mixed"}})
     for h in H.handover_histories():       # two objects, never alive at the same time: safe under finding F6
         jobs.append({"id": "o%d" % len(jobs), "kind": "history", "history": h, "_desc": {"calls": h["calls"], "kinds": h["kinds"]}})
     for i in range(60 if tier == "quick" else 600):
